@@ -115,6 +115,8 @@ def to_fan(n: Node, top: bool = True) -> str:
         return str(n.v)
     if isinstance(n, Rx):
         q = '"' if "'" in n.pat else "'"
+        if "'" in n.pat and '"' in n.pat:
+            q = "'''" if not n.pat.endswith("'") else '"""'   # both quote kinds: a triple-quoted raw string
         return ("rb" if n.is_bytes else "r") + q + n.pat + q
     if isinstance(n, NT):
         if n.sender is not None:
